@@ -27,5 +27,5 @@ PROP = dict(
     level_note="trusts the harness's line parser and call log, gcc TSan/ASan; schedules sampled",
     required_counters={"all": ["records_recording_sink", "records_file_sink", "records_async_stdout", "records_sync_stdout", "records_truncated",
                                "records_empty_text", "records_over_2048", "file_rollovers", "calls_rejected_by_filter",
-                               "calls_while_sink_disabled", "enable_disable_transitions", "verif_point_delays"]},
+                               "calls_while_sink_disabled", "enable_disable_transitions", "relevel_module_set_again", "relevel_module_unset", "relevel_default", "verif_point_delays"]},
 )
